@@ -189,7 +189,7 @@ func buildListener(fs []*gFilter) *xdsresource.ListenerResource {
 var (
 	c08Keys    = []string{"k1", "k2", "k3"}
 	c08Vals    = []string{"v1", "v2", "abc", "ab", "b", "xv1"}
-	c08Regexes = []string{"^a.*", "v[12]", "b$", "^ab?c?$", "."}
+	c08Regexes = []string{"^a.*", "v[12]", "b$", "^ab?c?$", ".", ".*", "^(ab|b)?$", "x*"} // the last three accept the empty string: a condition on an absent key must still be false
 	c08Methods = []string{"m1", "m2", "echo"}
 )
 
@@ -416,6 +416,7 @@ func runC08(c *ctx) {
 		for _, v := range md {
 			vals[v] = true
 		}
+		vals[""] = true // the empty string is in the table too (it is what a missing key would read as)
 		var vlist []string
 		for v := range vals {
 			vlist = append(vlist, v)
